@@ -10,7 +10,7 @@ CONSTANTS
   MaxOps = 4
   MaxSnaps = 1
   MaxRestarts = 1
-INVARIANTS NoTombLive GroupsFine EpochsFine FlagsConsistent
+INVARIANTS NoTombLive GroupsValid GroupsFine EpochsFine FlagsConsistent
 PROPERTIES A_RS_GroupEpoch
 VIEW MCView
 CHECK_DEADLOCK FALSE
